@@ -1024,8 +1024,51 @@ func (rn *runner) runOneShot(cs caseSpec) {
 	os.RemoveAll(dir)
 }
 
+// runRejected: delta runs that Finish must refuse before it touches anything visible (different branch set; repository
+// in a compound shard).  Go oracle only: Finish returns an error, the searcher still sees exactly the old index and no
+// non-temporary file changed.
+func (rn *runner) runRejected(cs caseSpec) {
+	dir := rn.freshDir()
+	t := rn.tpls[cs.Template]
+	copyDir(t.Dir, dir)
+	cs.Delta = true
+	sc := mkScenario(cs, rn.tpls, dir, 1000+rn.nextDir)
+	if !t.Compound {
+		sc.spec.BranchName = "main"
+	}
+	err := f1util.RunBuild(sc.spec)
+	view, why := sc.view(dir)
+	c := gen.Case{Class: "rejected-delta:" + cs.Template, Nontrivial: true,
+		Detail: gen.Detail(map[string]any{"spec": cs, "err": fmt.Sprint(err), "why": why})}
+	changed := ""
+	es, _ := os.ReadDir(dir)
+	seen := 0
+	for _, e := range es {
+		if strings.HasSuffix(e.Name(), ".tmp") {
+			continue
+		}
+		seen++
+		if _, ok := t.Tokens[sha(filepath.Join(dir, e.Name()))]; !ok {
+			changed = e.Name()
+		}
+	}
+	tes, _ := os.ReadDir(t.Dir)
+	switch {
+	case err == nil:
+		c.Go, c.Key = "a delta run that must be rejected returned nil", "false-success:rejected-delta"
+	case view != "old":
+		c.Go, c.Key = "a rejected delta run changed what the searcher sees: "+why, "rejected-delta-changed-index"
+	case changed != "" || seen != len(tes):
+		c.Go, c.Key = "a rejected delta run changed "+changed, "rejected-delta-changed-files"
+	}
+	rn.w.Emit(c)
+	os.RemoveAll(dir)
+}
+
 func (rn *runner) run(cs caseSpec) {
 	switch cs.Mode {
+	case "rejected":
+		rn.runRejected(cs)
 	case "stop":
 		rn.runStop(cs)
 	case "fault":
@@ -1146,6 +1189,9 @@ func main() {
 		// every template once with a full build and (where possible) a delta build, then random ones
 		for _, k := range templateKeys {
 			specs = append(specs, caseSpec{Mode: "stop", Template: k, NShards: 1 + r.Intn(2), Seed: r.U64(), ShardMerging: true})
+		}
+		for _, k := range []string{"F1", "F2d1", "C", "Cm"} {
+			specs = append(specs, caseSpec{Mode: "rejected", Template: k, NShards: 1, Changed: 1, Seed: r.U64(), ShardMerging: true})
 		}
 		for i := 0; i < f.N(14, 150); i++ {
 			specs = append(specs, randomSpec(r, "stop"))
